@@ -302,6 +302,8 @@ class Program:
         return "G%s" % self.pid
 
     def source(self, K, extra_adv=0, nlo=-1, nhi=3):
+        if getattr(self, "standalone_full", None):
+            return self.standalone_full
         if getattr(self, "standalone", None):
             text = self.standalone.replace("@", self.pid) + "\n" + std_driver(self.name, K, extra_adv, nlo, nhi, self.ret_type)
             return text
@@ -1678,3 +1680,74 @@ def subst_at(x, pid):
     if isinstance(x, list):
         return [subst_at(y, pid) for y in x]
     return x
+
+
+# ---------------------------------------------------------------------------------------------
+# C17 (compiled part): loops with rt.Probe in the condition / body, delegation chains
+
+C17_PROGRAMS = [
+    ("filter_continue", "func G@(mask, n int) (_ Iter[int]) {\n\tfor i := 0; rt.Probe(i < n); i++ {\n\t\tif (mask>>uint(i))&1 == 1 {\n\t\t\tcontinue\n\t\t}\n\t\tYield(i)\n\t}\n\treturn\n}\n"),
+    ("filter_if", "func G@(mask, n int) (_ Iter[int]) {\n\tfor i := 0; rt.Probe(i < n); i++ {\n\t\tif (mask>>uint(i))&1 == 0 {\n\t\t\tYield(i)\n\t\t}\n\t}\n\treturn\n}\n"),
+    ("while_continue", "func G@(mask, n int) (_ Iter[int]) {\n\ti := 0\n\tfor rt.Probe(i < n) {\n\t\ti++\n\t\tif (mask>>uint(i))&1 == 1 {\n\t\t\tcontinue\n\t\t}\n\t\tYield(i)\n\t}\n\treturn\n}\n"),
+    ("loop_break", "func G@(mask, n int) (_ Iter[int]) {\n\ti := 0\n\tfor {\n\t\trt.Probe(true)\n\t\ti++\n\t\tif i > n {\n\t\t\tbreak\n\t\t}\n\t\tif (mask>>uint(i))&1 == 1 {\n\t\t\tcontinue\n\t\t}\n\t\tYield(i)\n\t}\n\treturn\n}\n"),
+    ("range_slice", "func G@(mask, n int) (_ Iter[int]) {\n\txs := []int{0, 1, 2, 3, 4, 5, 6, 7}\n\tfor i, x := range xs[:n] {\n\t\trt.Probe(true)\n\t\tif (mask>>uint(i))&1 == 1 {\n\t\t\tcontinue\n\t\t}\n\t\tYield(x)\n\t}\n\treturn\n}\n"),
+    ("switch_in_loop", "func G@(mask, n int) (_ Iter[int]) {\n\tfor i := 0; rt.Probe(i < n); i++ {\n\t\tswitch (mask >> uint(i)) & 1 {\n\t\tcase 0:\n\t\t\tYield(i)\n\t\tdefault:\n\t\t}\n\t\trt.Emit(rt.EFF, i)\n\t}\n\treturn\n}\n"),
+    ("yield_post", "func G@(mask, n int) (_ Iter[int]) {\n\tfor i := 0; rt.Probe(i < n); i++ {\n\t\tif (mask>>uint(i))&1 == 0 {\n\t\t\tYield(i)\n\t\t}\n\t\trt.Emit(rt.EFF, i)\n\t}\n\treturn\n}\n"),
+    ("delegating_filter", "func H@(mask, n int) (_ Iter[int]) {\n\tfor i := 0; rt.Probe(i < n); i++ {\n\t\tif (mask>>uint(i))&1 == 1 {\n\t\t\tcontinue\n\t\t}\n\t\tYield(i)\n\t}\n\treturn\n}\n\nfunc G@(mask, n int) (_ Iter[int]) {\n\tYieldFrom(H@(mask, n))\n\treturn\n}\n"),
+]
+
+C17_DRIVER = """func DriveDepth_G@() {
+	mask := rt.NondetInt(1)
+	it := G@(mask, %(n)d)
+	for k := 0; k < %(n)d+1; k++ {
+		rt.SetLog(20 + k)
+		ok := it.MoveNext()
+		rt.SetLog(0)
+		rt.AssertDepths(20+k, 0, 1710+k)
+		if !ok {
+			break
+		}
+	}
+}
+"""
+
+C17_DELEG = """func R@(d, x int) (_ Iter[int]) {
+	if d <= 0 {
+		rt.Probe(true)
+		Yield(x)
+		return
+	}
+	YieldFrom(R@(d-1, x+1))
+	return
+}
+
+func G@(mask, n int) (_ Iter[int]) {
+	YieldFrom(R@(n, mask))
+	return
+}
+
+func DriveDepth_G@() {
+	x := rt.NondetInt(1)
+	rt.SetLog(30)
+	for d := 0; d <= %(n)d; d++ {
+		it := R@(d, x)
+		it.MoveNext()
+	}
+	rt.SetLog(0)
+	rt.AssertDepths(30, 1, 1730)
+}
+"""
+
+
+def c17_programs(n, dmax):
+    progs = []
+    for name, text in C17_PROGRAMS:
+        pid = "d17_" + name
+        p = Program(pid, [("yield", "a")], family="dep", tags={"depth:" + name})
+        p.standalone_full = (text + "\n" + C17_DRIVER % {"n": n}).replace("@", pid)
+        progs.append(p)
+    pid = "d17_delegation"
+    p = Program(pid, [("yield", "a")], family="dep", tags={"depth:delegation"})
+    p.standalone_full = (C17_DELEG % {"n": dmax}).replace("@", pid)
+    progs.append(p)
+    return progs
